@@ -108,6 +108,8 @@ class Script:
         self.etm = bool(shape.get("etm")) and self.d["mode"] == "CBC" and version != "ssl3"
         self.cr, self.sr = rng.randbytes(32), rng.randbytes(32)
         self.seq = {0: 0, 1: 0}
+        # per direction, in stream order: ("clear", raw) | ("hs", raw, plaintext) | ("app", raw, plaintext) | ("alert", raw)
+        self.rec_log = {0: [], 1: []}
         d = self.d
         self.hfun = HASH[d["mac"]]
         self.maclen = self.hfun().digest_size
@@ -206,10 +208,19 @@ class Script:
             body = b"".join(g)
             if protected:
                 pad = self.shape["pad13"](self.rng) if self.v == "tls13" and "pad13" in self.shape else 0
-                out += self.protect(fs, 22, body, pad)
+                r = self.protect(fs, 22, body, pad)
+                self.rec_log[fs].append(("hs", r, body))
             else:
-                out += rec(22, VER[self.v], body)
+                r = rec(22, VER[self.v], body)
+                self.rec_log[fs].append(("clear", r))
+            out += r
         return out
+
+    def _clear(self, fs, raw):
+        """an unprotected record (or nothing) of direction fs, logged in stream order"""
+        if raw:
+            self.rec_log[fs].append(("clear", raw))
+        return raw
 
     def render(self):
         """→ (flights [(dir, bytes)], truth {0: bytes, 1: bytes})"""
@@ -226,39 +237,48 @@ class Script:
             sid = sid or rng.randbytes(32)
         ext_c = ext(0x0D, b"\x00\x02\x04\x01") if v != "ssl3" else b""
         ch_rec_ver = ver if v == "ssl3" else b"\x03\x01"
-        flights = [(0, rec(22, ch_rec_ver, client_hello(self.cr, ver, offer, sid if sh.get("abbreviated") else b"",
-                                                        ext_c, ssl3=(v == "ssl3"))))]
+        flights = [(0, self._clear(0, rec(22, ch_rec_ver, client_hello(self.cr, ver, offer, sid if sh.get("abbreviated") else b"",
+                                                                       ext_c, ssl3=(v == "ssl3")))))]
         sh_msg = server_hello(self.sr, ver, code, sid, ext_s)
         ccs = rec(20, ver, b"\x01")
         if v == "tls13" and not sh.get("ccs13", True):
             ccs = b""                              # no middlebox-compatibility ChangeCipherSpec (RFC 8446 D.4 is optional)
         if v == "tls13":
-            f = rec(22, ver, sh_msg) + ccs
+            f = self._clear(1, rec(22, ver, sh_msg)) + self._clear(1, ccs)
             f += self._group(1, [hs(8, b"\0\0"), hs(11, rng.randbytes(80)), hs(15, rng.randbytes(70)),
                                  hs(20, rng.randbytes(self.hfun().digest_size))], True)
             flights.append((1, f))
             self.seq[1], self.epoch[1] = 0, "ap"
-            flights.append((0, ccs + self._group(0, [hs(20, rng.randbytes(self.hfun().digest_size))], True)))
+            flights.append((0, self._clear(0, ccs) + self._group(0, [hs(20, rng.randbytes(self.hfun().digest_size))], True)))
             self.seq[0], self.epoch[0] = 0, "ap"
             for _ in range(sh.get("tickets", 1)):
                 flights.append((1, self._group(1, [hs(4, rng.randbytes(40))], True)))
         elif sh.get("abbreviated"):
-            flights.append((1, rec(22, ver, sh_msg) + ccs + self._group(1, [hs(20, rng.randbytes(12))], True)))
-            flights.append((0, ccs + self._group(0, [hs(20, rng.randbytes(12))], True)))
+            flights.append((1, self._clear(1, rec(22, ver, sh_msg)) + self._clear(1, ccs) + self._group(1, [hs(20, rng.randbytes(12))], True)))
+            flights.append((0, self._clear(0, ccs) + self._group(0, [hs(20, rng.randbytes(12))], True)))
         else:
             warn = rec(21, ver, b"\x01\x70") if sh.get("warn_alert") else b""   # clear-text warning (unrecognized_name)
-            flights.append((1, warn + self._group(1, [sh_msg, hs(11, rng.randbytes(100)), hs(14, b"")], False)))
-            flights.append((0, self._group(0, [hs(16, rng.randbytes(64))], False) + ccs
+            flights.append((1, self._clear(1, warn) + self._group(1, [sh_msg, hs(11, rng.randbytes(100)), hs(14, b"")], False)))
+            flights.append((0, self._group(0, [hs(16, rng.randbytes(64))], False) + self._clear(0, ccs)
                             + self._group(0, [hs(20, rng.randbytes(12))], True)))
             tick = [hs(4, rng.randbytes(30))] if sh.get("tickets", 1) else []
-            flights.append((1, (self._group(1, tick, False) if tick else b"") + ccs
+            flights.append((1, (self._group(1, tick, False) if tick else b"") + self._clear(1, ccs)
                             + self._group(1, [hs(20, rng.randbytes(12))], True)))
         truth = {0: b"", 1: b""}
         pos = {0: sum(len(b) for d, b in flights if d == 0), 1: sum(len(b) for d, b in flights if d == 1)}
         self.app_records = []      # (dir, offset of the record in the direction's byte stream, record length, plaintext)
-        for d_, pt in self.app:
+        for i_, (d_, pt) in enumerate(self.app):
+            if sh.get("mid_alert") is not None and sh["mid_alert"][0] == i_ and v != "tls13":
+                # an encrypted warning alert (close_notify) in mid-connection; the peer's data already in flight follows.
+                # What is exported after it is not claimed by C01; C13 still relates the runs with and without -a.
+                da = sh["mid_alert"][1]
+                ra = self.protect(da, 21, b"\x01\x00")
+                self.rec_log[da].append(("alert", ra))
+                flights.append((da, ra))
+                pos[da] += len(ra)
             pad = sh["pad13"](rng) if v == "tls13" and "pad13" in sh else 0
             r = self.protect(d_, 23, pt, pad)
+            self.rec_log[d_].append(("app", r, pt))
             if flights and flights[-1][0] == d_ and rng.random() < sh.get("coalesce", 0.3):
                 flights[-1] = (d_, flights[-1][1] + r)
             else:
